@@ -110,7 +110,8 @@ func (m *MVCCHelper) Trash(version int64) error {
 			return it.Error()
 		}
 		//如果进入一个新的key, 这个key 忽略，不删除，也就是至少保留一个
-		if !bytes.HasPrefix(it.Key(), perfixkey) {
+		//必须比较去掉版本号之后的完整key: 仅比较前缀会把 key+"x" 或 key+".x" 的记录当成 key 的旧版本删除
+		if !bytes.Equal(cutVersion(it.Key()), perfixkey) {
 			perfixkey = cutVersion(it.Key())
 			if perfixkey == nil {
 				perfixkey = []byte("--.xxx.--")
@@ -302,6 +303,19 @@ func (m *SimpleMVCC) GetV(key []byte, version int64) ([]byte, error) {
 	}
 	k := vals[0]
 	val := vals[1]
+	// prefix 范围内还包含 key+"."+xxx 这类其他key的记录, 跳过它们继续向前查找本key的记录
+	for !isVersionRecord(k, prefix) {
+		vals, err = m.kvdb.List(prefix, k, 1, ListDESC|ListWithKey)
+		if err != nil {
+			return nil, err
+		}
+		var kv types.KeyValue
+		err = types.Decode(vals[0], &kv)
+		if err != nil {
+			return nil, err
+		}
+		k, val = kv.Key, kv.Value
+	}
 	v, err := getVersion(k)
 	if err != nil {
 		return nil, err
@@ -402,6 +416,19 @@ func getVersionString(key []byte) (string, error) {
 		}
 	}
 	return "", types.ErrVersion
+}
+
+// isVersionRecord 判断record是否是prefix对应key的版本记录: prefix + 20位数字
+func isVersionRecord(record, prefix []byte) bool {
+	if len(record) != len(prefix)+20 || !bytes.HasPrefix(record, prefix) {
+		return false
+	}
+	for _, c := range record[len(prefix):] {
+		if c < '0' || c > '9' {
+			return false
+		}
+	}
+	return true
 }
 
 func cutVersion(key []byte) []byte {
